@@ -639,7 +639,7 @@ def stale_arguments(ctx, E, scripts, pending, per_entity=2):
     TransactionError('An attempt to mix objects belonging to different transactions').  Each call runs in its own live db_session."""
     G, I, T, S, O = E.G, E.I, E.T, E.S, E.O
     def live_of(ent):
-        return {G: lambda: G[2], I: lambda: I[3], T: lambda: T[2], O: lambda: O[1], S: lambda: G[3]}[ent]()
+        return live_object(E, ent)
     def shapes(x): return [('bare', x), ('list', [x]), ('set', {x}), ('tuple', (x,))] if ctx.thorough else [('bare', x), ('list', [x]), ('tuple', (x,))][:2 + (ctx.seed % 2)]
     for script in scripts:
         if script[0] == 'failed_flush': continue
@@ -663,13 +663,13 @@ def stale_arguments(ctx, E, scripts, pending, per_entity=2):
                                 calls.append(('%s.%s += %s' % (ent.__name__, attr.name, sh), lambda ent=ent, attr=attr, x=x: getattr(live_of(ent), attr.name).__iadd__(x)))
                                 calls.append(('%s.set(%s=%s)' % (ent.__name__, attr.name, sh), lambda ent=ent, attr=attr, x=x: live_of(ent).set(**{attr.name: x})))
                                 for when in ('first', 'later'):
-                                    pre_q = (lambda: None) if when == 'first' else (lambda: E.T[1])
+                                    pre_q = (lambda: None) if when == 'first' else (lambda: E.T.select().first())
                                     calls.append(('%s(%s=%s) [%s]' % (ent.__name__, attr.name, sh, when), lambda ent=ent, attr=attr, x=x, pre_q=pre_q: (pre_q(), new_object(E, ent, {attr.name: x}, first=(when == 'first')))))
                         else:
                             # keyword lookups with the stale object as the key, and the constructor, as the FIRST thing in the session
                             # (the new session has no cache yet) and after a query
                             for when in ('first', 'later'):
-                                pre_q = (lambda: None) if when == 'first' else (lambda: E.T[1])
+                                pre_q = (lambda: None) if when == 'first' else (lambda: E.T.select().first())
                                 calls.append(('%s.get(%s=bare) [%s]' % (ent.__name__, attr.name, when), lambda ent=ent, attr=attr, pre_q=pre_q: (pre_q(), ent.get(**{attr.name: st}))))
                                 calls.append(('%s.exists(%s=bare) [%s]' % (ent.__name__, attr.name, when), lambda ent=ent, attr=attr, pre_q=pre_q: (pre_q(), ent.exists(**{attr.name: st}))))
                                 calls.append(('%s.select(%s=bare) [%s]' % (ent.__name__, attr.name, when), lambda ent=ent, attr=attr, pre_q=pre_q: (pre_q(), ent.select(**{attr.name: st})[:])))
@@ -723,6 +723,16 @@ def stale_arguments(ctx, E, scripts, pending, per_entity=2):
                         except Exception: pass
 
 
+def live_object(E, ent):
+    """a LIVE object of the current session that exists whatever the finished session's script deleted: the first row, else a new one
+    (fetching the live side is a precondition of the call under test, never a verdict about it)"""
+    obj = ent.select().first()
+    if obj is not None: return obj
+    if ent is E.G or ent is E.S: return ent(a=1)
+    if ent is E.T: return E.T(n=1)
+    return ent(g=E.G(a=1))
+
+
 def required_kwargs(ent, skip=()):
     return {a.name: 1 for a in ent._attrs_ if a.is_required and not a.is_collection and not a.reverse and a.pk_offset is None and not a.is_discriminator and a.name not in skip}
 
@@ -730,7 +740,7 @@ def new_object(E, ent, kw, first=False):
     kw = dict(required_kwargs(ent, skip=tuple(kw)), **kw)
     for a in ent._attrs_:      # required references other than the one under test: a live object (by raw key when nothing may be queried first)
         if a.is_required and a.reverse and not a.is_collection and a.name not in kw:
-            kw[a.name] = 2 if first else {E.G: lambda: E.G[2]}[a.py_type]()
+            kw[a.name] = 2 if first else live_object(E, a.py_type)
     return ent(**kw)
 
 
